@@ -5,7 +5,7 @@ import hashlib
 import json
 import time
 
-from . import core
+from . import core, x_timeout
 from .core import Inconclusive
 
 COMMON_ASSUMPTIONS = [
@@ -118,6 +118,42 @@ NOT_APPLICABLE = {
 }
 
 PROPS = {
+    'C08': dict(
+        gen=x_timeout.generate, trace_spec='TimeoutTrace.tla', own_attribution=True,
+        rule='parser: 6 units x 1..8 digits x {all zeros, 1, all nines, powers of ten, carries into the next unit, the hour '
+             'saturation threshold -1/0/+1, random (2 quick / 400 thorough per unit and digit count)} plus the malformed classes '
+             '(empty, unit only, no unit, signed, 9..25 digits incl. the first values that overflow 63 bits, non-digit, unknown '
+             'unit, white space), each through the parser hook and end to end as a raw request with a randomly-cased key into a '
+             'real server (unary and the three stream kinds); keys that are not the timeout key; propagation: real client -> '
+             'real server on the virtual clock, caller timeouts from -10^4 h to +10^4 h (expired, < 1 ms, millisecond edges, the '
+             'eight-digit limit 10^8 ms, whole and fractional seconds beyond it, log-uniform random) x transit {0, 250 us, 1 ms, '
+             '1 s, beyond the deadline} x {unary, bidi, cs, ss}; a scenario is a batch of one class; non-trivial = every batch',
+        nontrivial_ops=['parse', 'prop'],
+        assumptions=COMMON_ASSUMPTIONS + [
+            'durations are logged as (sign, hours, seconds, nanoseconds) and header keys/values byte by byte because TLC has '
+            '32-bit integers and cannot index strings; this decomposition (harness/driver/x_timeout.go setDur, chars) is trusted',
+            'a saturated value (hours > 2562047) may be any duration from 2562047 h to 2^63-1 ns',
+            'a caller timeout of 10^8 ms or more cannot be written in milliseconds with eight digits; for those the lower '
+            'bound "minus one millisecond" is read as "minus one unit of the finest unit that expresses the timeout in eight '
+            'digits" (1 s up to 10^8 s); below 10^8 ms the property is checked literally (rule group "coarse" in '
+            'spec/TimeoutTrace.tla switches the allowance off)',
+            'transit time = virtual time from the call to the start of the handler; the client transport of the propagation '
+            'runs does not look at the caller context, so that calls with an expired deadline reach the wire',
+        ],
+        models=[
+            dict(name='Timeout design: grammar classes + encoder/transit/decoder', spec='Timeout.tla',
+                 cfg='SPECIFICATION Spec\nINVARIANT TypeOK GrammarInv RangeInv LadderInv MonotoneInv WireInv PropInv PropLiteralInv\n'
+                     'CHECK_DEADLOCK FALSE\n',
+                 workers=8,
+                 constants='4 prefixes x 0..10 digits x 7 digit patterns x 13 suffixes; 94 caller timeouts (none, expired, '
+                           '0..2562047 h at quarter-millisecond offsets) x up to 3 clock steps of {1/4 ms, 1 ms, 1 s}'),
+            dict(name='Timeout design, legacy client (always milliseconds) against a conformant parser', spec='Timeout.tla',
+                 cfg='SPECIFICATION Spec\nINVARIANT PropInv\nCONSTANT MsOnlyClient <- Yes\nCHECK_DEADLOCK FALSE\n',
+                 workers=1, exhaustive=False,
+                 constants='as above up to 10^4 h; expected counterexample: 10^8 ms is written with nine digits and ignored',
+                 expect_violation='Invariant PropInv is violated'),
+        ],
+    ),
     'C04': dict(rule='(i) every operation sequence of the header/trailer emission machine (SetHeader, SendHeader, SendMsg, SetTrailer, Return ok/err over two metadata sets, up to 3 operations quick / 4 thorough, streams and the unary twin) is enumerated by TLC from spec/Metadata.tla and replayed on the real server with several value sets; (ii) random metadata sets (0..16 keys in mixed letter case, 1..4 values, arbitrary bytes incl. NUL/0xFF/empty under -bin keys) as request metadata, headers leaving in the three ways, and trailers, on all four kinds; non-trivial = carries at least one metadata operation', nontrivial_ops=['sopen', 'ucall'], assumptions=COMMON_ASSUMPTIONS + ['key sets that collide after lower-casing within one metadata map are not generated (Go map iteration order would make the merge order unspecified)'], gen='c04', models=[dict(name='Metadata emission machine (streams)', spec='Metadata.tla', cfg={'quick': 'SPECIFICATION Spec\nCONSTANTS Sets = {1, 2}\nMaxOps = 4\nUnary = FALSE\nPrintPaths = FALSE\nINVARIANTS MdOnlyOnFirst FirstCarriesAll HeadersFinal TrailerLast UnaryOneResponse\nCHECK_DEADLOCK FALSE\n', 'thorough': 'SPECIFICATION Spec\nCONSTANTS Sets = {1, 2, 3}\nMaxOps = 5\nUnary = FALSE\nPrintPaths = FALSE\nINVARIANTS MdOnlyOnFirst FirstCarriesAll HeadersFinal TrailerLast UnaryOneResponse\nCHECK_DEADLOCK FALSE\n'}, constants='Sets={1,2} MaxOps=4 (quick) / Sets={1,2,3} MaxOps=5 (thorough)', workers=8), dict(name='Metadata emission machine (unary)', spec='Metadata.tla', cfg='SPECIFICATION Spec\nCONSTANTS Sets = {1, 2, 3}\nMaxOps = 5\nUnary = TRUE\nPrintPaths = FALSE\nINVARIANTS MdOnlyOnFirst FirstCarriesAll HeadersFinal TrailerLast UnaryOneResponse\nCHECK_DEADLOCK FALSE\n', constants='Sets={1,2,3} MaxOps=5 Unary', workers=4)]),
     'C06': dict(rule='the wire histories of the program families of C01-C04, C07 and C11 (early returns, cancellations, errors, resets, late bodies, the srv.writer.window schedule) judged per id and direction by the wire-protocol rules of the specification (rule group wire: open shape, bodies, at most one close with status, nothing after it, single final client reset, server reset only for unknown streams and never before the trailer, constant method/source/destination, metadata only on the first response envelope, ids echoed); non-trivial = the scenario puts at least one RPC on the wire', nontrivial_ops=['ucall', 'sopen'], assumptions=COMMON_ASSUMPTIONS, models=[], gen='c06'),
     'C14': dict(rule='(a) histories of RPCs of all four kinds with outcomes {ok, handler error, cancel, deadline, early handler return (server reset), failed open} stepped through the full specification with a census after every RPC; (b) long self-driving histories (10^4 RPCs quick, 10^6 thorough, 32 at a time) validated against the slim registry specification at every quiescent point; non-trivial = every history', nontrivial_ops=['q', 'history'], assumptions=COMMON_ASSUMPTIONS + ['in the long histories the driver decides that a point is idle (every RPC goroutine of the wave returned, no handler live); the specification then demands empty registries and the idle goroutine level'], models=[], parts=[dict(gen='c14', trace_spec='GoatTrace.tla', shard_size=1), dict(gen='c14_long', trace_spec='GoatRegistryTrace.tla', shard_size=1)]),
